@@ -154,6 +154,18 @@ func (p Pegnet) CheckHardForks(tx QueryAble) error {
 		return err
 	}
 
+	// Heights above the highest recorded row carry no version: they were
+	// synced by a build that predates version tracking (the database was
+	// taken back to such a build after tracking had started). They count as
+	// version -1 like everything else such a build synced.
+	if bs != nil && bs.Synced > top {
+		for _, event := range Hardforks {
+			if bs.Synced >= event.ActivationHeight && -1 < event.MinimumVersion {
+				return fmt.Errorf("a hardfork occurred at height %d. Blocks up to height %d were synced by a pegnetd that predates sync-version tracking, but version %d was required. The only way to fix this error is to ensure your node is updated, delete your database, and resync", event.ActivationHeight, bs.Synced, event.MinimumVersion)
+			}
+		}
+	}
+
 	for _, event := range Hardforks {
 		// If the event is not synced past, then we do not need to check
 		if event.ActivationHeight <= top {
